@@ -1107,7 +1107,7 @@ func main() {
 	w.wg.Add(1)
 	go pusher(w, conn0, *seed*7+1, mboxIDs)
 	// a session that keeps two connector-deleted messages of mb1 in its view (a lasting pool of messages marked for
-	// deletion), one that keeps replacing its snapshot with EXAMINE / SELECT, two that log in and out all the time
+	// deletion), three that keep replacing their snapshot with EXAMINE / SELECT, four that log in and out all the time
 	hold := holder(w)
 	if hold != nil && len(mboxIDs) > 1 {
 		n := 0
@@ -1118,10 +1118,14 @@ func main() {
 		}
 		stat(fmt.Sprintf("pooled-deletions:%d", n))
 	}
-	w.wg.Add(3)
-	go examiner(w, *seed*13+5)
-	go flapper(w, *seed*17+1)
-	go flapper(w, *seed*17+2)
+	for i := int64(0); i < 3; i++ {
+		w.wg.Add(1)
+		go examiner(w, *seed*13+5+i)
+	}
+	for i := int64(0); i < 4; i++ {
+		w.wg.Add(1)
+		go flapper(w, *seed*17+1+i)
+	}
 	time.Sleep(time.Duration(*runMs) * time.Millisecond)
 
 	// teardown, racing with everything above. First: one connection per protocol state (not authenticated, in the middle
